@@ -253,6 +253,7 @@ def gen_case(seed, tier, prop):
             maxv = rng.choice([None, None, cap, cap + 1])
     ntasks = rng.randint(2, 8 if big else 5)
     nseg = [0]
+    native = rng.random() < 0.3      # this case also uses native asyncio Task.cancel() on whole tasks
     borrowers = ["b%d" % i for i in range(rng.randint(1, 3))]
 
     def inner(tid):
@@ -279,10 +280,16 @@ def gen_case(seed, tier, prop):
             elif r < 0.84:
                 out.append(["cp"])
             elif r < 0.93 and nseg[0]:
-                out.append(["cancel", rng.randint(0, nseg[0] + 2)])
+                if native and rng.random() < 0.3:
+                    out.append(["ncancel", rng.randint(0, ntasks - 1)])
+                else:
+                    out.append(["cancel", rng.randint(0, nseg[0] + 2)])
             elif kind == "lim":
                 out.append(["total", rng.choice([0, 0, 1, 2, 3, "inf"])])
-            elif kind.startswith("sem") and rng.random() < 0.5:
+            elif kind.startswith("sem") and rng.random() < 0.5 and not (native and maxv is not None):
+                # (with a max_value, an extra release lets two in-flight acquires own more permits than max_value
+                # admits; the give-back of a natively cancelled one is then refused - a consequence of the misuse,
+                # not something the statement covers)
                 out.append(["rel_extra"])
             else:
                 out.append(["cp"])
@@ -301,6 +308,8 @@ def gen_case(seed, tier, prop):
         t = rng.choice([0, 0.125, 0.125, 0.25, 0.25, 0.375, 0.5, 0.625, 0.75, 1.0])
         if kind == "lim" and rng.random() < 0.35:
             ext.append([t, "total", rng.choice([0, 1, 1, 2, 3, "inf"])])
+        elif native and rng.random() < 0.35:
+            ext.append([t, "ncancel", rng.randint(0, ntasks - 1)])
         else:
             ext.append([t, "cancel", rng.randint(0, max(0, nseg[0] - 1))])
     ext.sort(key=lambda e: e[0])
@@ -328,6 +337,7 @@ class PermitRun:
         self.seg_task = {}       # sid -> tid
         self.in_acquire = {}     # tid -> who (pending blocking acquire)
         self.seg_cancelled = set()
+        self.ncancelled = set()
         self.holding = {}        # who -> tid  (definite holders: returned from acquire / nowait)
         self.sem_held = {}       # tid -> count
         self.model = None
@@ -413,6 +423,8 @@ class PermitRun:
         for t, what, arg in case["ext"]:
             if what == "cancel":
                 loop.call_external_at(t, self.do_cancel, "ext", arg)
+            elif what == "ncancel":
+                loop.call_external_at(t, self.do_ncancel, "ext", arg)
             else:
                 loop.call_external_at(t, self.do_total, "ext", arg)
         self.janitor_handle = loop.call_at(8.0, self.janitor)
@@ -453,6 +465,30 @@ class PermitRun:
             self.faults["cancel_other"] += 1
         self.observe("after cancel")
 
+    def do_ncancel(self, by, tid):
+        """Native asyncio cancellation of a whole task (as asyncio.timeout / wait_for / a foreign framework would do).
+        Unlike a scope cancellation it also reaches a waiter that has already been handed the permit: that waiter's
+        acquire() then raises and the permit must be passed on."""
+        t = self.task_obj.get(tid)
+        if t is None or t.done() or tid == by or tid in self.ncancelled:
+            return
+        self.observe("before native cancel")
+        self.ncancelled.add(tid)
+        who = self.in_acquire.get(tid)
+        self.rec("native_cancel", by, tid)
+        t.cancel()
+        if who is not None:
+            st = self.model.cancel_request(who)
+            if st == "waiting":
+                self.faults["native_cancel_waiter"] += 1
+                self.nontrivial = True
+            elif st == "granted":
+                self.faults["native_cancel_granted"] += 1
+                self.nontrivial = True
+        else:
+            self.faults["native_cancel_other"] += 1
+        self.observe("after native cancel")
+
     def do_total(self, by, v):
         if self.base != "lim":
             return
@@ -485,6 +521,11 @@ class PermitRun:
                         await self.run_inner(tid, sid, inner)
                 finally:
                     self.scopes.pop(sid, None)
+        except asyncio.CancelledError:
+            # a native cancellation ends this task only: it is absorbed here so that the enclosing task group
+            # (which would otherwise cancel all the siblings through a scope the harness does not track) is unaffected
+            if tid not in self.ncancelled:
+                raise
         finally:
             # every holder releases (termination discipline)
             self.release_all(tid)
@@ -507,6 +548,8 @@ class PermitRun:
                 await checkpoint()
             elif op == "cancel":
                 self.do_cancel(tid, st[1])
+            elif op == "ncancel":
+                self.do_ncancel(tid, st[1])
             elif op == "total":
                 self.do_total(tid, st[1])
             elif op in ("acq", "acq_for"):
